@@ -52,7 +52,8 @@ DECS = [0.5, -2.5, 0.1, 2.675]
 NUMTEXT = ['3', '-3', '3.5']
 BADTEXT = ['abc', '', '\u00b2', '\u2460\u2082',      # incl. digit-like characters that are not decimal digits
            'inf', 'nan', '-Infinity', '1_000',          # ... and what only a programming language reads as a number
-           '99999999999999999999 1', '1.2.99999999999']  # ... and what a lenient date reader chokes on
+           '99999999999999999999 1', '1.2.99999999999',  # ... and what a lenient date reader chokes on
+           '1e999']                                      # ... and a spelling whose value no sheet can hold
 DATES = [D(2019, 11, 20), D(2000, 2, 29), D(1900, 3, 1)]
 DATETIMES = [D(2019, 11, 20, 6, 0), D(2019, 11, 20, 18, 30, 15)]
 DATETEXT = ['2019-11-20']
